@@ -128,6 +128,7 @@ def run_check(mod, tier, seed, n_runs=None, workers=None, budget_s=None, quiet=F
         return 2
     _MOD, _TIER = mod, tier
     workers = workers or int(os.environ.get("VERIF_WORKERS", "0")) or min(16, os.cpu_count() or 1)
+    adhoc_runs = n_runs is not None
     n_runs = n_runs if n_runs is not None else mod.n_runs(tier)
     budget_s = budget_s or mod.budget(tier)
     sweeps = mod.sweep_configs(tier)
@@ -286,8 +287,12 @@ def run_check(mod, tier, seed, n_runs=None, workers=None, budget_s=None, quiet=F
           "coverage": cov, "assumptions": mod.ASSUMPTIONS, "wall_s": round(wall, 2),
           "violations": new_violations}
     if exit_code != 2:
-        os.makedirs(os.path.join(VERIF, "evidence"), exist_ok=True)
-        with open(os.path.join(VERIF, "evidence", mod.PROP + ".json"), "w") as fid:
+        # ad hoc runs (--runs N, a scratch tree) do not replace the evidence
+        # of the registered commands
+        adhoc = adhoc_runs or os.path.realpath(REPO) != "/repo"
+        edir = os.path.join(VERIF, "out", "evidence_adhoc") if adhoc else os.path.join(VERIF, "evidence")
+        os.makedirs(edir, exist_ok=True)
+        with open(os.path.join(edir, mod.PROP + ".json"), "w") as fid:
             json.dump(ev, fid, indent=1, default=str)
     if not quiet:
         print("%s tier=%s seed=%s runs=%d (search %d, sweep %d) distinct=%d nontrivial=%d shapes=%d "
